@@ -39,7 +39,8 @@ K(fam, n) == [style |-> "native", nids |-> n, nmax |-> NMax, oid |-> OidOf(fam)]
 Alphabet ==
   LET all == Requests(K("low", NIds), {"id0", "perm"}, {"A", "B"}) IN
   IF Side = "life"
-  THEN {r \in all : /\ r.op \in LifeOps
+  THEN NodeRequests \cup
+       {r \in all : /\ r.op \in LifeOps
                     \* value variant B only for id 1 (a differing re-setup must be refused)
                     /\ (r.op = "Setup" /\ r.v = "B" => r.id = 1 /\ ~r.al)
                     \* the permanent id is given to id 2 (and to id 1 when there is no id 2)
@@ -125,7 +126,23 @@ FamScripts == { [fam |-> f, nids |-> 3, nmax |-> NMax,
                           \o Watch(o[1]) \o Watch(o[2])]
                 : f \in {"mid", "high", "peer0", "peer32"}, o \in {<<1, 3>>, <<3, 1>>, <<2, 3, 1>>} }
 
+\* node-level and wallet keys: the reference term, then the node's answer, for every key; the same
+\* questions again with a channel around and after a restart.  Run on EVERY configuration (both
+\* tiers), so that the documented cross-style relations (same seed and network) are exercised.
+NodeOrder == <<"account", "shutdown", "hb", "wpkh0", "wpkh1", "wpkh7", "tr1", "sh1",
+               "bolt12", "persist", "nodeid", "onion">>
+NodeRef(w) == CHOOSE r \in NodeRequests : r.op = "Ref" /\ r.which = w
+AskAll == [k \in 1..Len(NodeOrder) |-> [op |-> "NodeKey", which |-> NodeOrder[k]]]
+NodeScript == Cat([k \in 1..Len(NodeOrder) |-> <<NodeRef(NodeOrder[k]), [op |-> "NodeKey", which |-> NodeOrder[k]]>>])
+              \o <<[op |-> "New", id |-> 1], [op |-> "Setup", id |-> 1, al |-> FALSE, v |-> "A"]>> \o AskAll
+              \o <<[op |-> "Restart"]>> \o AskAll
+NodeScripts == << [fam |-> "low", nids |-> 1, nmax |-> NMax, reqs |-> NodeScript],
+                  \* a second, independently created node that is asked straight away
+                  [fam |-> "low", nids |-> 1, nmax |-> NMax, reqs |-> AskAll] >>
+
 ScriptDoc == [configs |-> Configs,
+              allcfgs |-> [k \in 1..Len(Configs) |-> k],
+              nodescripts |-> NodeScripts,
               cfgs    |-> SetToSeq(ScriptCfgs),
               scripts |-> SetToSeq(LifeScripts) \o SetToSeq(FamScripts) \o SetToSeq(FlipScripts)]
 
